@@ -11,3 +11,4 @@ import AikenVerif.Props.C18
 import AikenVerif.Props.C19
 import AikenVerif.Props.C13
 import AikenVerif.Props.C10
+import AikenVerif.Props.C04
